@@ -8,7 +8,8 @@
 (*                names present or absent; at most MaxBad refused ops).    *)
 (* Family "edge": the builder is first filled with n0 files (every n0 in   *)
 (*                N0, around the byte boundaries 8 and 16) and two tags    *)
-(*                with a membership pattern, then every sequence of <= D   *)
+(*                (A = the byte-edge positions, B = a membership pattern), *)
+(*                then every sequence of <= D                              *)
 (*                (pattern 1) or <= D2 (other patterns) operations over    *)
 (*                ALL positions follows.                                   *)
 (* Family "size": the size-manifest builder (add_entry / add_tag /         *)
@@ -60,8 +61,8 @@ EdgeSeq(n) == SelectSeq(IdxSeq(n), LAMBDA i : i % 8 = 0 \/ i % 8 = 7)
 PreOps(n, p, ord) ==
   LET files == <<[op |-> "add_files", files |-> [j \in 1..n |-> <<SzOfId(j - 1)[1], SzOfId(j - 1)[2], PrOfId(j - 1)>>]]>>
       tags  == <<OpAddTag("A"), OpAddTag("B")>>
-      assoc == <<[op |-> "assoc_set", t |-> "A", files |-> PatSeq(n, p)],
-                 [op |-> "assoc_set", t |-> "B", files |-> EdgeSeq(n)]>>
+      assoc == <<[op |-> "assoc_set", t |-> "A", files |-> EdgeSeq(n)],
+                 [op |-> "assoc_set", t |-> "B", files |-> PatSeq(n, p)]>>
   IN IF ord = "tf" THEN tags \o files \o assoc ELSE files \o tags \o assoc
 
 RECURSIVE Fold(_, _, _)
@@ -104,10 +105,12 @@ OpsSeq ==
   \cup {[op |-> "dissoc", i |-> i, t |-> t] : i \in 0..N, t \in Universe}
   \cup {[op |-> "remove_file", i |-> i] : i \in 0..N}
   \cup {[op |-> "remove_tag", t |-> t] : t \in Universe}
+\* (the operations address the SECOND tag and remove the FIRST, so that a builder which keeps a
+\* name -> index table must renumber it)
 OpsEdge ==
-  {OpAddFile, OpAddTag("C"), [op |-> "remove_tag", t |-> "B"], [op |-> "reopen"]}
-  \cup {[op |-> "assoc", i |-> i, t |-> "A"] : i \in 0..(N - 1)}
-  \cup {[op |-> "dissoc", i |-> i, t |-> "A"] : i \in 0..(N - 1)}
+  {OpAddFile, OpAddTag("C"), [op |-> "remove_tag", t |-> "A"], [op |-> "reopen"]}
+  \cup {[op |-> "assoc", i |-> i, t |-> "B"] : i \in 0..(N - 1)}
+  \cup {[op |-> "dissoc", i |-> i, t |-> "B"] : i \in 0..(N - 1)}
   \cup {[op |-> "remove_file", i |-> i] : i \in 0..(N - 1)}
 \* size builder: positions up to one past the end may be tagged in advance
 OpsSize ==
